@@ -123,14 +123,62 @@ def gen_flex_ops(t, rng, n_ops):
     return ops
 
 
+def nested_plan(t, rng=None):
+    """for a struct / enum whose last fields lead to a container: (container type, make_init) where
+    make_init(tail_init) is an emplacer expression of t with that tail; None otherwise"""
+    rng = rng or random.Random(0)
+    k = t[0]
+    if k in ('vec', 'str', 'flex'):
+        return t, (lambda s: s)
+    if k == 'struct' and not t[1] and t[2]:
+        sub = nested_plan(t[2][-1], rng)
+        if sub is None:
+            return None
+        heads = [gen_init(f, rng, 2, allow_default=False) for f in t[2][:-1]]
+        return sub[0], (lambda s, heads=heads, sub=sub: '(seq%s %s)' % (''.join(' ' + h for h in heads), sub[1](s)))
+    if k == 'enum' and not t[1]:
+        for v, fs in enumerate(t[4]):
+            if not fs:
+                continue
+            sub = nested_plan(fs[-1], rng)
+            if sub is None:
+                continue
+            heads = [gen_init(f, rng, 2, allow_default=False) for f in fs[:-1]]
+            return sub[0], (lambda s, v=v, heads=heads, sub=sub: '(var %d%s %s)' % (v, ''.join(' ' + h for h in heads), sub[1](s)))
+    return None
+
+
 def generate(shapes, seed, tier='quick'):
     rng = random.Random(seed * 613 + 5)
     lines, meta = [], {}
     per = 4 if tier == 'quick' else 16
+    from shapes import wide_len
+    # ---- containers nested as the unsized tail of a struct / enum variant, mutated through the mapped value
+    for sid, t in shapes:
+        if t[0] not in ('struct', 'enum') or wide_len(t):
+            continue
+        plan = nested_plan(t, rng)
+        if plan is None:
+            continue
+        ct, mk = plan
+        a = align(t)
+        ms = min_size(t)
+        for j in range(4 if tier == 'quick' else 8):
+            cid = '%s.HN%d' % (sid, j)
+            # the tightest buffers first: a tail capacity that is a few slots too large shows there
+            n = [ms, ms + a, ms + 2 * a + 1][j] if j < 3 else rng.choice([ms + 3 * a + 1, ms + 17, ms + 40])
+            if ct[0] == 'vec':
+                ops = gen_vec_ops(ct, rng, rng.randint(3, 14), rng.choice([1, 3, 8]), 0)
+            elif ct[0] == 'str':
+                ops = gen_str_ops(rng, rng.randint(3, 10))
+            else:
+                ops = gen_flex_ops(ct, rng, rng.randint(3, 12))
+            ini = mk('empty')
+            lines.append('H %s %s 0 %s | %s | %s' % (cid, sid, hexs(garbage(rng, n)), ini, ' | '.join(ops)))
+            meta[cid] = {'op': 'H', 'shape': sid, 'off': 0, 'len': n, 'init': ini, 'ops': ops}
     for sid, t in shapes:
         if t[0] not in ('vec', 'str', 'flex'):
             continue
-        from shapes import wide_len
         if wide_len(t):
             continue
         a = align(t)
